@@ -2,7 +2,9 @@
 (* The client <-> proxy command loop of XiaoMi/Gaea (proxy/server) at the level of MySQL   *)
 (* packets.  Two parts share the module:                                                   *)
 (*                                                                                          *)
-(* PART R  (property C39)  result delivery.  A statement is answered by 1..2 backends,     *)
+(* PART R  (property C39)  result delivery.  A statement is answered by 1..4 per-shard      *)
+(*   results (one per sub-table statement; the statements of one slice run one after the   *)
+(*   other on that slice's connection, different slices run in parallel),                  *)
 (*   each producing a sequence of rows of a given packet length.  The proxy's delivery     *)
 (*   paths are actions: the backend reader takes row packets until the end of the result,  *)
 (*   until the row limit is hit, or until more than Threshold bytes are buffered (the      *)
@@ -13,9 +15,10 @@
 (*   the limit is an error, a result within the limit is delivered in full.                *)
 (*   The constants LimitInclusive / ShardIgnoresMore / LimitPerChunk select design         *)
 (*   variants: all FALSE is the intended design (must satisfy the property, checked        *)
-(*   exhaustively); all TRUE is the design as written in backend/direct_connection.go,     *)
-(*   proxy/server/executor.go and client_conn.go (its terminal states are emitted as       *)
-(*   predictions, which the conformance harness confirms or refutes on the real code).     *)
+(*   exhaustively) and, since the fix commits 5a26ea1 / 9502c9e / d751f23, also the design *)
+(*   of the code; all TRUE is the design as it was written before those commits.  The      *)
+(*   terminal states of the selected variant are emitted as predictions, which the         *)
+(*   conformance harness confirms or refutes on the real code (model drift, no verdict).   *)
 (*                                                                                          *)
 (* PART M  (property C38)  malformed client input.  The handshake response and every       *)
 (*   command are field lists; malformation operators act on the field list (truncate at    *)
@@ -37,6 +40,8 @@ CONSTANTS
     LimitInclusive,    \* R: TRUE = the reader fails when rows >= limit (as written); FALSE = rows > limit
     ShardIgnoresMore,  \* R: TRUE = the sharded path merges first chunks and ignores the more-rows flag
     LimitPerChunk,     \* R: TRUE = the row counter restarts with every streamed chunk
+    Shard4MaxLimit,    \* R: the four-sub-table mode is enumerated for limits 1..Shard4MaxLimit ...
+    Shard4RowLens,     \* R: ... and these row lengths (tiering)
     Kinds,             \* M: packet kinds to enumerate
     MaxOps             \* M: malformation operators per packet (1 = singles, 2 = pairs)
 
@@ -54,26 +59,31 @@ VARIABLES rcfg,     \* the case: [limit, mode, proto, rowlen, n] ; n = rows prod
 
 rvars == <<rcfg, rd, chunk, cbytes, more, bst, sent, outcome>>
 
-Modes  == {"unsharded", "shard1", "shard2"}
+Modes  == {"unsharded", "shard1", "shard2", "shard4"}   \* shard4: two slices with two sub-table statements each
 Protos == {"text", "binary"}
 
 CountsOf(l) == IF l = 0 THEN UnlimCounts ELSE {l - 1, l, l + 1}
-CountVectors(l, m) == IF m = "shard2" THEN {<<a, b>> : a \in CountsOf(l), b \in CountsOf(l)}
-                                      ELSE {<<a>> : a \in CountsOf(l)}
-Fits(c) == \A i \in 1..Len(c.n) : c.n[i] * c.rowlen <= MaxBytes
+CountVectors(l, m) == CASE m = "shard2" -> {<<a, b>> : a \in CountsOf(l), b \in CountsOf(l)}
+                        [] m = "shard4" -> {<<a, b, c, d>> : a \in CountsOf(l), b \in CountsOf(l), c \in CountsOf(l), d \in CountsOf(l)}
+                        [] OTHER -> {<<a>> : a \in CountsOf(l)}
+Fits(c) == /\ \A i \in 1..Len(c.n) : c.n[i] * c.rowlen <= MaxBytes
+           /\ c.mode = "shard4" => c.limit \in 1..Shard4MaxLimit /\ c.rowlen \in Shard4RowLens
 
 ResultCases ==
     {c \in UNION { { [limit |-> l, mode |-> m, proto |-> p, rowlen |-> s, n |-> v] : v \in CountVectors(l, m) }
                    : l \in Limits, m \in Modes, p \in Protos, s \in RowLens } : Fits(c)}
 
-BE == {1, 2}
+BE == 1..4
 NB == Len(rcfg.n)
 N(b) == IF b <= NB THEN rcfg.n[b] ELSE 0
 Used == 1..NB
 Sharded == rcfg.mode # "unsharded"
+(* the slice (backend connection) a per-shard result comes from *)
+SliceOf(b) == IF rcfg.mode = "shard4" THEN (b + 1) \div 2 ELSE b
+Plus(a, b) == a + b
 
 (* what the property demands for a case c, independent of any design variant *)
-TotalOf(c) == IF Len(c.n) = 2 THEN c.n[1] + c.n[2] ELSE c.n[1]
+TotalOf(c) == FoldLeft(Plus, 0, c.n)
 ExpectedOf(c) == IF c.limit > 0 /\ \E b \in 1..Len(c.n) : c.n[b] > c.limit THEN "error" ELSE "full"
 (* the judgement of an answer (out = "complete" | "error", rows = rows the client received) *)
 Judge(c, out, rows) == IF ExpectedOf(c) = "error" THEN out = "error"
@@ -94,9 +104,14 @@ RInit == /\ rcfg \in ResultCases
 
 Exceeds(c) == IF LimitInclusive THEN c >= rcfg.limit ELSE c > rcfg.limit
 
+(* executeMultipleSQLInSlice: the statements of one slice run in order on one connection; a statement *)
+(* starts when the previous one has been read to its end (a failed one ends the slice's work)          *)
+Finished(b) == bst[b] = "chunkdone" /\ (ShardIgnoresMore \/ ~more[b])
+Turn(b) == \A p \in Used : (p < b /\ SliceOf(p) = SliceOf(b)) => Finished(p)
+
 (* DirectConnection.readResultRows: one row packet *)
 ReadRow(b) ==
-    /\ bst[b] = "reading" /\ rd[b] < N(b) /\ outcome = "pending"
+    /\ bst[b] = "reading" /\ rd[b] < N(b) /\ outcome = "pending" /\ Turn(b)
     /\ LET nrd == rd[b] + 1
            nch == chunk[b] + 1
            nby == cbytes[b] + rcfg.rowlen
@@ -119,7 +134,7 @@ ReadRow(b) ==
 
 (* the EOF packet that ends the backend's result *)
 ReadEOF(b) ==
-    /\ bst[b] = "reading" /\ rd[b] = N(b) /\ outcome = "pending"
+    /\ bst[b] = "reading" /\ rd[b] = N(b) /\ outcome = "pending" /\ Turn(b)
     /\ bst' = [bst EXCEPT ![b] = "chunkdone"]
     /\ more' = [more EXCEPT ![b] = FALSE]
     /\ UNCHANGED <<rcfg, rd, chunk, cbytes, sent, outcome>>
@@ -138,7 +153,9 @@ WriteChunk ==
             /\ outcome' = "complete"
     /\ UNCHANGED <<rcfg, rd, more>>
 
-Settled == \A b \in Used : bst[b] \in {"chunkdone", "limiterr"}
+SliceDone(s) == \/ \E b \in Used : SliceOf(b) = s /\ bst[b] = "limiterr"
+                \/ \A b \in Used : SliceOf(b) = s => Finished(b)
+Settled == \A b \in Used : SliceDone(SliceOf(b))
 
 (* an ERR packet: immediately for the unsharded path (also in the middle of a stream), after    *)
 (* all backends have answered for the sharded path (executeShardSQLInSlice collects errors)     *)
@@ -162,9 +179,8 @@ ContinueShardRead(b) ==
 (* sharded: plan.MergeSelectResult over what the readers returned, written as one result *)
 Merge ==
     /\ Sharded /\ outcome = "pending" /\ Settled
-    /\ \A b \in Used : bst[b] = "chunkdone"
-    /\ ShardIgnoresMore \/ \A b \in Used : ~more[b]
-    /\ sent' = chunk[1] + chunk[2]
+    /\ \A b \in Used : Finished(b)
+    /\ sent' = chunk[1] + chunk[2] + chunk[3] + chunk[4]
     /\ outcome' = "complete"
     /\ bst' = [b \in BE |-> IF b \in Used THEN "finished" ELSE bst[b]]
     /\ UNCHANGED <<rcfg, rd, chunk, cbytes, more>>
@@ -244,17 +260,21 @@ LastMandatory(lay) == IF \E i \in 1..Len(lay) : lay[i].opt = 0
 MinLen(lay) == Off(lay, LastMandatory(lay))
 
 (* the layout after a length prefix was replaced by a wider encoding *)
-PrefixWidth(variant) == CASE variant = "w2" -> 3 [] variant = "w3" -> 4 [] variant = "w8" -> 9 [] OTHER -> 1
+PrefixWidth(variant) == CASE variant = "w2" -> 3 [] variant = "w3" -> 4
+                          [] variant \in {"w8", "w8p32", "w8p47", "w8p63"} -> 9 [] OTHER -> 1
 Widen(lay, i, variant) == [lay EXCEPT ![i].len = PrefixWidth(variant)]
 
 CutPoints(lay) == LET tot == TotalLen(lay)
                       raw == UNION {{Off(lay, i) - 1, Off(lay, i), Off(lay, i) + 1} : i \in 0..Len(lay)}
                   IN {p \in raw : p >= 0 /\ p <= tot + 1 /\ p # tot}
 PrefixFields(lay) == {i \in 1..Len(lay) : lay[i].k \in {"len1", "lenenc"}}
-Variants(k) == IF k = "lenenc" THEN {"rem1", "max1", "null", "w2", "w3", "w8"} ELSE {"rem1", "max1"}
+(* rem1: one more than the bytes that remain; max1: largest one-byte value; null: 0xfb; w2 / w3: 0xfc / 0xfd with all  *)
+(* ones; w8: 0xfe with 2^64-1; w8p32 / w8p47 / w8p63: 0xfe with 2^32, 2^47, 2^63-1 (sizes that are positive as a signed  *)
+(* 64-bit integer: beyond 32 bits, far beyond any memory, and the largest)                                              *)
+Variants(k) == IF k = "lenenc" THEN {"rem1", "max1", "null", "w2", "w3", "w8", "w8p32", "w8p47", "w8p63"} ELSE {"rem1", "max1"}
 
 (* operators; a packet carries at most one operator of each family *)
-AllVariants == {"rem1", "max1", "null", "w2", "w3", "w8"}
+AllVariants == {"rem1", "max1", "null", "w2", "w3", "w8", "w8p32", "w8p47", "w8p63"}
 BodyFieldOps(kind) ==
     LET lay == Layout(kind) IN
        {o \in {[op |-> "oversize", field |-> i, variant |-> v, at |-> 0] : i \in PrefixFields(lay), v \in AllVariants} :
